@@ -41,6 +41,9 @@ func (s *Store[H]) OnDelete(fn func(context.Context, uint64) error) {
 var (
 	deleteRangeParallelThreshold uint64 = 10000
 	errDeleteTimeout                    = errors.New("delete timeout")
+	// errMissingHeader tells that there is no header to delete at the height,
+	// as opposed to datastore.ErrNotFound coming from anywhere else, e.g. an OnDelete handler.
+	errMissingHeader = errors.New("header is missing")
 )
 
 // deleteSingle deletes a single header from the store,
@@ -61,6 +64,9 @@ func (s *Store[H]) deleteSingle(
 		if h := s.pending.GetByHeight(height); !h.IsZero() {
 			hash, err = h.Hash(), nil
 		}
+	}
+	if errors.Is(err, datastore.ErrNotFound) {
+		return fmt.Errorf("hash by height %d: %w", height, errMissingHeader)
 	}
 	if err != nil {
 		return fmt.Errorf("hash by height %d: %w", height, err)
@@ -108,7 +114,7 @@ func (s *Store[H]) deleteSequential(
 
 	for height := from; height < to; height++ {
 		err := s.deleteSingle(ctx, height, onDelete)
-		if errors.Is(err, datastore.ErrNotFound) {
+		if errors.Is(err, errMissingHeader) {
 			missing++
 			log.Debugw("attempt to delete header that's not found", "height", height)
 		} else if err != nil {
@@ -173,7 +179,7 @@ func (s *Store[H]) deleteParallel(ctx context.Context, from, to uint64) (uint64,
 		for height := range jobCh {
 			last.height = height
 			last.err = s.deleteSingle(workerCtx, height, onDelete)
-			if errors.Is(last.err, datastore.ErrNotFound) {
+			if errors.Is(last.err, errMissingHeader) {
 				last.missing++
 				log.Debugw("attempt to delete header that's not found", "height", height)
 			} else if last.err != nil {
